@@ -60,8 +60,11 @@ The raw logs of the confirmation runs are in `seeded/logs/`.
 {det} of {n} confirmed changes are reported by the quick tier of the check of their own
 property - *after* the strengthening described below the table. At first sight the checks
 reported 32 of 39 (first round), 31 of 40 (second) and 28 of 40 (third); every miss was in
-a bounded part (a stand-in that lacked the triggering input or sequence) or an engine
-error of the harness, never a proved clause that kept proving on broken code. "obligation" = a public proof obligation that is discharged on the unchanged
+a bounded part (a stand-in that lacked the triggering input or sequence), in code outside
+the functions and argument kinds under contract (`Term` general path, `utils.sum`,
+`QuantityMeta.__new__`, string spellings), behind an abstraction of the model (dictionary
+keys by object identity, so a changed `__hash__` is invisible; converter exceptions as one
+opaque kind - refined since) or an engine error of the harness. "obligation" = a public proof obligation that is discharged on the unchanged
 tree is refuted (named in the replay file); "stand-in" = the bounded stand-in produced a
 failing input that is replayed against the changed code. {n_obl} changes refute at least
 one obligation ({n_obl - n_both} of them only that), {n_std} produce a failing input
